@@ -1,3 +1,381 @@
-/- C16 property theorems (not written yet) -/
+/-
+C16 — live views of response headers never drift from the header text.
+Property theorems only (helper lemmas: Lemmas/Views.lean; model: Model/Views.lean).
+
+Every view family is an instance of `C16L.Family`: getter (`load`), `on_update` writer (`write`),
+view mutators reporting whether they notified. The coherence statement has the two parts of the
+property:
+  (i)  along EVERY history of view mutators, re-fetches and arbitrary header edits (direct edits,
+       whole-property assignments, deletions), whenever the held view is in sync with the headers
+       (fetched, or just written back, and no header edit since) re-reading the property gives the
+       held view;
+  (ii) an effective view mutation rewrites the header from the new view: its text is the view's
+       serialisation, or the header is absent when the view became empty.
+The side conditions of a history (`okHist`) are decidable and explicit: the views that are written
+back round-trip through the header codec (the C06 property), fetched HeaderSet views satisfy
+`HeaderSet.Inv` and item assignments do not create case-duplicates (F08b, F08c).
+-/
+import WzVerif.Lemmas.Views
 namespace Wz.Props.C16
+open Wz Hdr Views Wz.C16L
+
+/-! ## the view families -/
+
+def setFamily (name : Str) : Family HS.St HS.Op :=
+  ⟨fun h => SetView.load h name, id, fun h c => SetView.write h name c,
+   fun c op => ((HS.step c op).st, (HS.step c op).notified)⟩
+
+def ccFamily : Family ODict CC.Op :=
+  ⟨CC.load, id, CC.write, fun d op => ((CC.step d op).st, (CC.step d op).notified)⟩
+
+def cspFamily (name writeName : Str) : Family CSP.St CSP.Op :=
+  ⟨fun h => CSP.load h name, id, fun h d => CSP.write h name writeName d,
+   fun d op => ((CSP.step d op).st, (CSP.step d op).notified)⟩
+
+def crFamily : Family CR.St CR.Op :=
+  ⟨CR.load, fun h => (CR.fetch h).2, fun h c => (CR.write h c).1,
+   fun c op => ((CR.step c op).st, (CR.step c op).notified)⟩
+
+def authFamily : Family Auth.St Auth.Op :=
+  ⟨Auth.load, id, Auth.write, fun c op => ((Auth.step c op).st, (Auth.step c op).notified)⟩
+
+def mpFamily : Family MP.St (DOp Str) :=
+  ⟨MP.load, id, fun h d => (MP.write h d).1, fun d op => ((dstep d op).st, (dstep d op).notified)⟩
+
+def anyView {σ : Type} : σ → Bool := fun _ => true
+def anyOp {σ ο : Type} : σ → ο → Bool := fun _ _ => true
+
+/-! ## (i) coherence along every history -/
+
+/-- Vary / Allow / Content-Language: for every history, under `HeaderSet.Inv` of the fetched views
+and `hsOk` item assignments, the held HeaderSet view stays equal to the re-read property whenever it
+is in sync; and the invariant is kept. -/
+theorem view_coherent_set (name : Str) (evs : List (Ev HS.Op)) (s : S HS.St)
+    (hI : HS.Inv s.v) (hs : s.synced = true → SetView.load s.h name = s.v)
+    (hok : okHist (setFamily name) (fun c => decide (HS.Inv c)) C08L.hsOk s evs = true) :
+    HS.Inv (run (setFamily name) s evs).v ∧
+    ((run (setFamily name) s evs).synced = true →
+      SetView.load (run (setFamily name) s evs).h name = (run (setFamily name) s evs).v) := by
+  have := coherent (setFamily name) (fun c => decide (HS.Inv c)) C08L.hsOk
+    (fun v op hv ha => by
+      simp only [decide_eq_true_eq] at hv ⊢
+      exact C08L.hs_inv_preserved v hv op ha)
+    (fun v op hv _ hq => by
+      simp only [decide_eq_true_eq] at hv
+      exact hs_quiet v hv op hq)
+    evs s (by simpa using hI) hs hok
+  simpa using this
+
+example : okHist (setFamily "Vary".toList) (fun c => decide (HS.Inv c)) C08L.hsOk
+    ⟨[("Vary".toList, "Cookie".toList)], SetView.load [("Vary".toList, "Cookie".toList)] "Vary".toList, true⟩
+    [.view (.remove "cookie".toList), .view (.add "Accept".toList), .edit (fun h => (Hdr.add h "X".toList "1".toList).1),
+     .view (.update ["a b".toList, "ACCEPT".toList]), .refetch, .view (.setitem 0 "Origin".toList), .view .clear] = true := by
+  decide +kernel
+
+/-- cache_control: every typed directive assignment / deletion and every dict mutator -/
+theorem view_coherent_cc (evs : List (Ev CC.Op)) (s : S ODict)
+    (hs : s.synced = true → CC.load s.h = s.v) (hok : okHist ccFamily anyView anyOp s evs = true) :
+    (run ccFamily s evs).synced = true → CC.load (run ccFamily s evs).h = (run ccFamily s evs).v :=
+  (coherent ccFamily anyView anyOp (fun _ _ _ _ => rfl) (fun v op _ _ hq => cc_quiet v op hq) evs s rfl hs hok).2
+
+example : okHist ccFamily anyView anyOp ⟨[], CC.load [], true⟩
+    [.view (.attr "max-age".toList .int (.int 3600)), .view (.attr "no-store".toList .bool (.bool true)),
+     .view (.attr "private".toList .str (.str "a b".toList)), .view (.delattr "no-store".toList),
+     .edit (fun h => (Hdr.set h "Cache-Control".toList "public".toList).1), .refetch,
+     .view (.dict (.pop "public".toList none))] = true := by
+  decide +kernel
+
+/-- content_security_policy / content_security_policy_report_only -/
+theorem view_coherent_csp (name writeName : Str) (evs : List (Ev CSP.Op)) (s : S CSP.St)
+    (hs : s.synced = true → CSP.load s.h name = s.v)
+    (hok : okHist (cspFamily name writeName) anyView anyOp s evs = true) :
+    (run (cspFamily name writeName) s evs).synced = true →
+      CSP.load (run (cspFamily name writeName) s evs).h name = (run (cspFamily name writeName) s evs).v :=
+  (coherent (cspFamily name writeName) anyView anyOp (fun _ _ _ _ => rfl)
+    (fun v op _ _ hq => csp_quiet v op hq) evs s rfl hs hok).2
+
+example : okHist (cspFamily "content-security-policy".toList "Content-Security-Policy".toList) anyView anyOp
+    ⟨[], [], true⟩
+    [.view (.attr "default-src".toList (some "'self'".toList)), .view (.attr "img-src".toList (some "* data:".toList)),
+     .view (.delattr "default-src".toList), .refetch, .view (.dict .clear)] = true := by
+  decide +kernel
+
+/-- content_range (reading the property rewrites the header: `refetchH`) -/
+theorem view_coherent_cr (evs : List (Ev CR.Op)) (s : S CR.St)
+    (hs : s.synced = true → CR.load s.h = s.v) (hok : okHist crFamily anyView anyOp s evs = true) :
+    (run crFamily s evs).synced = true → CR.load (run crFamily s evs).h = (run crFamily s evs).v :=
+  (coherent crFamily anyView anyOp (fun _ _ _ _ => rfl) (fun v op _ _ hq => cr_quiet v op hq) evs s rfl hs hok).2
+
+example : okHist crFamily anyView anyOp ⟨[], CR.empty, true⟩
+    [.view (.set (some 0) (some 10) (some 100) (some "bytes".toList)), .view (.setLength none), .refetch,
+     .view (.set (some 5) (some 2) none (some "bytes".toList)), .view .unset] = true := by
+  decide +kernel
+
+/-- www_authenticate (as repaired: `type`, `token`, `parameters` reach their setters) -/
+theorem view_coherent_auth (evs : List (Ev Auth.Op)) (s : S Auth.St)
+    (hs : s.synced = true → Auth.load s.h = s.v) (hok : okHist authFamily anyView anyOp s evs = true) :
+    (run authFamily s evs).synced = true → Auth.load (run authFamily s evs).h = (run authFamily s evs).v :=
+  (coherent authFamily anyView anyOp (fun _ _ _ _ => rfl) (fun v op _ _ hq => auth_quiet v op hq) evs s rfl hs hok).2
+
+example : okHist authFamily anyView anyOp ⟨[], Auth.default, true⟩
+    [.view (.setitem "realm".toList (some "login area".toList)), .view (.setType "digest".toList),
+     .view (.setitem "nonce".toList (some "abc".toList)), .view (.delitem "nonce".toList), .refetch,
+     .view (.setParams []), .view (.setToken (some "t0k".toList)), .view (.setType "bearer".toList)] = true := by
+  decide +kernel
+
+/-- mimetype_params -/
+theorem view_coherent_mp (evs : List (Ev (DOp Str))) (s : S MP.St)
+    (hs : s.synced = true → MP.load s.h = s.v) (hok : okHist mpFamily anyView anyOp s evs = true) :
+    (run mpFamily s evs).synced = true → MP.load (run mpFamily s evs).h = (run mpFamily s evs).v :=
+  (coherent mpFamily anyView anyOp (fun _ _ _ _ => rfl) (fun v op _ _ hq => dstep_quiet v op hq) evs s rfl hs hok).2
+
+example : okHist mpFamily anyView anyOp
+    ⟨[("Content-Type".toList, "text/html; charset=utf-8".toList)],
+     MP.load [("Content-Type".toList, "text/html; charset=utf-8".toList)], true⟩
+    [.view (.setitem "charset".toList "latin-1".toList), .view (.setitem "boundary".toList "a b".toList),
+     .view (.pop "charset".toList none), .refetch, .view .clear] = true := by
+  decide +kernel
+
+/-! ## (ii) an effective mutation rewrites the header from the view -/
+
+/-- In every family a mutator that changes the view calls `on_update` (notification completeness:
+`add` of a present member, `discard` of an absent one, deleting a missing parameter, a failing
+`set` are exactly the calls that do not notify, and they leave the view unchanged). -/
+theorem effective_mutation_notifies :
+    (∀ (c : HS.St) (op : HS.Op), HS.Inv c → (HS.step c op).st ≠ c → (HS.step c op).notified = true) ∧
+    (∀ (d : ODict) (op : CC.Op), (CC.step d op).st ≠ d → (CC.step d op).notified = true) ∧
+    (∀ (d : CSP.St) (op : CSP.Op), (CSP.step d op).st ≠ d → (CSP.step d op).notified = true) ∧
+    (∀ (c : CR.St) (op : CR.Op), (CR.step c op).st ≠ c → (CR.step c op).notified = true) ∧
+    (∀ (c : Auth.St) (op : Auth.Op), (Auth.step c op).st ≠ c → (Auth.step c op).notified = true) ∧
+    (∀ (d : MP.St) (op : DOp Str), (dstep d op).st ≠ d → (dstep d op).notified = true) := by
+  refine ⟨?_, ?_, ?_, ?_, ?_, ?_⟩
+  · intro c op hI hne
+    cases h : (HS.step c op).notified with
+    | true => rfl
+    | false => exact absurd (hs_quiet c hI op h) hne
+  · intro d op hne
+    cases h : (CC.step d op).notified with
+    | true => rfl
+    | false => exact absurd (cc_quiet d op h) hne
+  · intro d op hne
+    cases h : (CSP.step d op).notified with
+    | true => rfl
+    | false => exact absurd (csp_quiet d op h) hne
+  · intro c op hne
+    cases h : (CR.step c op).notified with
+    | true => rfl
+    | false => exact absurd (cr_quiet c op h) hne
+  · intro c op hne
+    cases h : (Auth.step c op).notified with
+    | true => rfl
+    | false => exact absurd (auth_quiet c op h) hne
+  · intro d op hne
+    cases h : (dstep d op).notified with
+    | true => rfl
+    | false => exact absurd (dstep_quiet d op h) hne
+
+/-- HeaderSet views: after `on_update` the header is absent when the view is empty, else it is the
+single line `to_header()` -/
+theorem view_text_set (h : HList) (name : Str) (c : HS.St) :
+    (c.set.isEmpty = true → getlist (SetView.write h name c) name = []) ∧
+    (c.set.isEmpty = false → hasNL (SetView.dump c) = false →
+      getlist (SetView.write h name c) name = [SetView.dump c]) := by
+  constructor
+  · intro he; simp only [SetView.write, he, if_true]; exact absent_pattern h name
+  · intro he hv
+    simp only [SetView.write, he, Bool.false_eq_true, if_false]
+    exact set_getlist h name _ hv
+
+example : hasNL (SetView.dump (HS.construct ["Cookie".toList, "Accept Encoding".toList])) = false := by decide
+
+/-- cache_control -/
+theorem view_text_cc (h : HList) (d : ODict) :
+    (d.isEmpty = true → getlist (CC.write h d) "cache-control".toList = []) ∧
+    (d.isEmpty = false → hasNL (CC.dump d) = false →
+      getlist (CC.write h d) "cache-control".toList = [CC.dump d]) := by
+  constructor
+  · intro he; simp only [CC.write, he, if_true]; exact absent_pattern h _
+  · intro he hv
+    simp only [CC.write, he, Bool.false_eq_true, if_false]
+    exact set_getlist' h _ _ _ (by decide) hv
+
+/-- content_security_policy (`name` is the lower-case header name used for deleting, `writeName`
+the spelling used for setting) -/
+theorem view_text_csp (h : HList) (name writeName : Str) (hk : lower name = lower writeName) (d : CSP.St) :
+    (d.isEmpty = true → getlist (CSP.write h name writeName d) name = []) ∧
+    (d.isEmpty = false → hasNL (CSP.dump d) = false →
+      getlist (CSP.write h name writeName d) name = [CSP.dump d]) := by
+  constructor
+  · intro he; simp only [CSP.write, he, if_true]; exact delKey_getlist h name
+  · intro he hv
+    simp only [CSP.write, he, Bool.false_eq_true, if_false]
+    exact set_getlist' h _ _ _ hk hv
+
+example : lower "content-security-policy-report-only".toList = lower "Content-Security-policy-report-only".toList := by
+  decide
+
+/-- content_range: absent when unset, else the serialisation (when `to_header` succeeds) -/
+theorem view_text_cr (h : HList) (c : CR.St) :
+    (c.units = none → getlist (CR.write h c).1 "content-range".toList = []) ∧
+    (∀ t, c.units ≠ none → CR.toHeader c = .ok t → hasNL t = false →
+      getlist (CR.write h c).1 "content-range".toList = [t]) := by
+  constructor
+  · intro he; simp only [CR.write, he]; exact delKey_getlist h _
+  · intro t hu ht hv
+    cases hu' : c.units with
+    | none => exact absurd hu' hu
+    | some u =>
+      simp only [CR.write, hu', ht]
+      exact set_getlist' h _ _ _ (by decide) hv
+
+/-- www_authenticate: the header is always the serialisation of the view -/
+theorem view_text_auth (h : HList) (c : Auth.St) (hv : hasNL (Auth.toHeader c) = false) :
+    getlist (Auth.write h c) "WWW-Authenticate".toList = [Auth.toHeader c] :=
+  set_getlist h _ _ hv
+
+/-! ## known findings: views for which the round trip (hence coherence) fails -/
+
+/-- F16b: the full statement "every written view re-reads equal" is false for the WWW-Authenticate
+view with neither token nor parameters: it is written as `Basic ` and re-read with token `""`. -/
+theorem auth_roundtrip_full_false : ¬ (∀ (h : HList) (c : Auth.St), Auth.load (Auth.write h c) = c) := by
+  intro h
+  exact absurd (h [] Auth.default) (by decide +kernel)
+
+/-- ... concretely `Response().www_authenticate.x = None` creates the header for an empty view -/
+theorem auth_empty_view_header :
+    (next authFamily ⟨[], Auth.default, true⟩ (.view (.setitem "x".toList none))).h
+      = [("WWW-Authenticate".toList, "Basic ".toList)] := by
+  decide +kernel
+
+/-- F16c: a view holding a token *and* parameters: the header keeps only the token -/
+theorem auth_token_with_params_drifts :
+    Auth.load (Auth.write [] ⟨"basic".toList, [("realm".toList, some "x".toList)], some "xyz".toList⟩)
+      ≠ ⟨"basic".toList, [("realm".toList, some "x".toList)], some "xyz".toList⟩ := by
+  decide +kernel
+
+/-- F16e: `type` assigned with capitals is stored verbatim and re-read lower-cased -/
+theorem auth_type_case_drifts :
+    Auth.load (Auth.write [] ⟨"Basic".toList, [], some "abc".toList⟩) ≠ ⟨"Basic".toList, [], some "abc".toList⟩ := by
+  decide +kernel
+
+/-- F16d: a ContentRange holding `stop` without `start` serialises as `bytes */*` -/
+theorem cr_invalid_state_drifts :
+    CR.load (CR.write [] ⟨some "bytes".toList, none, some 10, none⟩).1 ≠ ⟨some "bytes".toList, none, some 10, none⟩ := by
+  decide +kernel
+
+/-- F16f: parameters written without a mimetype become the whole Content-Type -/
+theorem mp_without_mimetype_drifts :
+    MP.load (MP.write [] [("charset".toList, "utf-8".toList)]).1 ≠ [("charset".toList, "utf-8".toList)] := by
+  decide +kernel
+
+/-- the regressions repaired by bc9f56a / 8064f72 hold in the model: removing a Vary entry with
+another letter case deletes the header; assigning `token` reaches the setter -/
+theorem repaired_regressions :
+    (next (setFamily "Vary".toList) ⟨[("Vary".toList, "Cookie".toList)],
+        SetView.load [("Vary".toList, "Cookie".toList)] "Vary".toList, true⟩ (.view (.remove "cookie".toList))).h = [] ∧
+    (next authFamily ⟨[], Auth.default, true⟩ (.view (.setToken (some "xyz".toList)))).h
+      = [("WWW-Authenticate".toList, "Basic xyz".toList)] := by
+  decide +kernel
+
+/-! ## typed get / set of the scalar properties -/
+
+/-- `_DictAccessorProperty`: after `response.<prop> = v` (stored text `dump v`, newline-free) the
+getter returns `load (dump v)`, or the default when loading fails -/
+theorem typed_get_set {τ : Type} (load : Str → Option τ) (dflt : Option τ) (h : HList) (name text : Str)
+    (hv : hasNL text = false) :
+    Scalar.get load dflt (Scalar.set h name text).1 name = (match load text with | some x => some x | none => dflt) := by
+  have hg : getlist (Hdr.set h name text).1 name = [text] := set_getlist h name text hv
+  have : getKey (Hdr.set h name text).1 name = .ok text := by
+    simp only [getlist] at hg
+    simp only [getKey]
+    cases hf : (Hdr.set h name text).1.find? (keyEq name) with
+    | none =>
+      rw [List.find?_eq_none] at hf
+      have : (Hdr.set h name text).1.filter (keyEq name) = [] := by
+        rw [List.filter_eq_nil_iff]; intro a ha; exact hf a ha
+      simp [this] at hg
+    | some p =>
+      have hp := List.find?_eq_some_iff_append.1 hf
+      obtain ⟨hk, as, bs, hl, hnot⟩ := hp
+      have hfa : as.filter (keyEq name) = [] := by
+        rw [List.filter_eq_nil_iff]; intro a ha; simpa using hnot a ha
+      rw [hl, List.filter_append, hfa, List.filter_cons] at hg
+      simp only [hk, if_true, List.nil_append, List.map_cons] at hg
+      have := (List.cons.inj hg).1
+      simp [this]
+  simp only [Scalar.get, Scalar.set, this]
+
+/-- int-typed properties (content_length, access_control_max_age): the value read back is the int
+that was assigned -/
+theorem typed_get_set_int (h : HList) (name : Str) (i : Int) :
+    Scalar.get CC.pyInt none (Scalar.set h name (CC.intText i)).1 name = some i := by
+  have hv : hasNL (CC.intText i) = false := by
+    have key : ∀ n : Nat, hasNL (CC.natText n) = false := by
+      intro n
+      unfold hasNL CC.natText
+      rw [Bool.eq_false_iff]
+      intro hc
+      rw [List.any_eq_true] at hc
+      obtain ⟨c, hm, hnl⟩ := hc
+      have hd := Nat.isDigit_of_mem_toDigits (b := 10) (by decide) (by decide) hm
+      simp only [isNL, Bool.or_eq_true, beq_iff_eq] at hnl
+      rcases hnl with e | e <;> (subst e; simp [Char.isDigit] at hd)
+    cases i with
+    | ofNat n => exact key n
+    | negSucc n =>
+      have := key (n + 1)
+      simp only [CC.intText, hasNL, List.any_cons] at this ⊢
+      simp [isNL, this]
+  rw [typed_get_set CC.pyInt none h name _ hv, pyInt_intText]
+
+/-- str-typed properties (location, content_type, …): the text read back is the text assigned -/
+theorem typed_get_set_str (h : HList) (name text : Str) (hv : hasNL text = false) :
+    Scalar.get (fun s => some s) none (Scalar.set h name text).1 name = some text := by
+  rw [typed_get_set _ none h name text hv]
+
+/-- age: a non-negative count of seconds reads back as assigned (negative ones are refused by
+`dump_age`, and a negative header text reads as None) -/
+theorem typed_get_set_age (h : HList) (n : Nat) :
+    Scalar.get Scalar.parseAge none (Scalar.set h "Age".toList (CC.natText n)).1 "Age".toList = some (n : Int) := by
+  have := typed_get_set_int h "Age".toList (n : Int)
+  have hne : (CC.natText n).isEmpty = false := by
+    obtain ⟨c, t, he, _⟩ := natText_head_digit n; rw [he]; rfl
+  simp only [Scalar.get, Scalar.parseAge] at this ⊢
+  cases hg : getKey (Scalar.set h "Age".toList (CC.natText n)).1 "Age".toList with
+  | error e => simp [CC.intText, hg] at this
+  | ok v =>
+    simp only [CC.intText, hg] at this
+    simp only []
+    cases hp : CC.pyInt v with
+    | none => simp [hp] at this
+    | some i =>
+      simp only [hp, Option.some.injEq] at this
+      subst this
+      have hv : v.isEmpty = false := by
+        cases v with
+        | nil => simp [CC.pyInt, CC.digitsVal] at hp
+        | cons _ _ => rfl
+      simp [hv, hp]
+
+/-- deleting a typed property makes the getter return the default -/
+theorem typed_delete {τ : Type} (load : Str → Option τ) (dflt : Option τ) (h : HList) (name : Str) :
+    Scalar.get load dflt (Scalar.delete h name) name = dflt := by
+  simp only [Scalar.get, Scalar.delete, popKey]
+  cases hg : getKey h name with
+  | error e => simp [hg]
+  | ok v =>
+    simp only []
+    have : getlist (delKey h name) name = [] := delKey_getlist h name
+    have hk : getKey (delKey h name) name = .error "BadRequestKeyError" := by
+      simp only [getKey]
+      cases hf : (delKey h name).find? (keyEq name) with
+      | none => rfl
+      | some p =>
+        have hm := List.mem_of_find?_eq_some hf
+        have hkp := List.find?_some hf
+        simp only [getlist] at this
+        have : p ∈ (delKey h name).filter (keyEq name) := List.mem_filter.2 ⟨hm, hkp⟩
+        simp_all
+    simp [hk]
+
 end Wz.Props.C16
